@@ -3689,13 +3689,15 @@ func (r *JournalReader) Next() (err error) {
 	}
 
 	// Read number of frames in journal segment. Set to -1 if no-sync was set
-	// and set to 0 if the journal was not sync'd. In these two cases we will
-	// calculate the frame count based on the journal size.
+	// in which case we will calculate the frame count based on the journal size.
+	//
+	// A count of 0 means the segment was not sync'd yet. SQLite does not write
+	// any of the segment's pages to the database before the count is sync'd so,
+	// as with SQLite's hot journal playback, there is nothing to roll back and
+	// the (possibly torn) unsynced records must not be copied to the database.
 	r.frameN = int32(binary.BigEndian.Uint32(hdr[8:]))
 	if r.frameN == -1 {
 		r.frameN = int32((r.fi.Size() - int64(r.sectorSize)) / int64(r.pageSize))
-	} else if r.frameN == 0 {
-		r.frameN = int32((r.fi.Size() - r.offset) / int64(r.pageSize))
 	}
 
 	// Read remaining fields from header.
